@@ -352,9 +352,15 @@ def compare_world(rec, case, mjm, qpos, got, w, rng, nofilter_pairs):
         npos = max(npos, float(np.abs(p["pos"][ip[j]] - pa[i]).max()))
         ndist = max(ndist, abs(float(p["dist"][ip[j]]) - float(ref["dist"][ia[i]])))
         nfr = max(nfr, float(np.abs(p["frame"][ip[j]] - ref["frame"][ia[i]]).max()))
+    # a cylinder standing on its cap touches the plane in a rim triangle whose rotation about the axis is arbitrary
+    # (MuJoCo ties it to the cylinder's local x axis, MJWarp to the world): positions are not comparable there
+    cap = pname == "plane-cylinder" and len(ia) >= 3
+    if cap:
+      rec.count("manifold_not_compared:cylinder-cap-on-plane")
     for i, j in enumerate(order):
       ai, bj = ia[i], ib[j]
-      _judge(rec, f"pos[{cls}]", pname, got["pos"][bj], ref["pos"][ai], allow[1], npos * C_NOISE_SCALE, ctx)
+      if not cap:
+        _judge(rec, f"pos[{cls}]", pname, got["pos"][bj], ref["pos"][ai], allow[1], npos * C_NOISE_SCALE, ctx)
       _judge(rec, f"dist_all[{cls}]", pname, got["dist"][bj], ref["dist"][ai], allow[0], ndist * C_NOISE_SCALE, ctx)
       if not (abs(float(ref["dist"][ai])) < 2e-6 and num == "ccd"):
         v = _judge(rec, f"normal_all[{cls}]", pname, got["frame"][bj][:3], ref["frame"][ai][:3], allow[2], nfr * C_NOISE_SCALE, ctx)
